@@ -623,7 +623,20 @@ def an_C04_window(mod, name, paths, fq):
     return [rec(ob, 'proved', 'symbolic execution (object identity on %d paths)' % n, 0, fq)]
 
 
-ANALYSES = {'C04': an_C04_window, 'C07': an_C07, 'C09': an_C09, 'C10': an_C10, 'C18': an_C18, 'C17': an_C17_twin}
+def an_C07_full(mod, name, paths, fq):
+    """C07 also at the observation point formatted_traces: the formatters and the trace-level filters read trace.ktraces[0],
+    so every decoder must hand back its delivered window (the S-window clause of C04, discharged again under C07's name)"""
+    out = an_C07(mod, name, paths, fq)
+    for r in an_C04_window(mod, name, paths, fq):
+        r = dict(r)
+        r['name'] = r['name'].replace('C04/window/', 'C07/window/', 1)
+        if r.get('viol'):
+            r['viol'] = dict(r['viol'], request={'kind': 'headless_window_case', 'decoder': name})
+        out.append(r)
+    return out
+
+
+ANALYSES = {'C04': an_C04_window, 'C07': an_C07_full, 'C09': an_C09, 'C10': an_C10, 'C18': an_C18, 'C17': an_C17_twin}
 
 
 # =============================================================================== pool
